@@ -277,6 +277,11 @@ impl Driver {
                 });
                 json!({"ok": self.calcs.get_mut(&c).unwrap().add_rule(s(op, "lang"), strs(op, "patterns"), rule)})
             }
+            "set_date_rule" => {
+                self.ensure_calc(c);
+                self.calcs.get_mut(&c).unwrap().set_date_rule(&s(op, "lang"), strs(op, "patterns"));
+                json!({"ok": true})
+            }
             "delete_rule" => {
                 self.ensure_calc(c);
                 json!({"ok": self.calcs.get_mut(&c).unwrap().delete_rule(s(op, "lang"), s(op, "name"))})
